@@ -286,6 +286,90 @@ def work_archives(task):
     return ev
 
 
+FLAVOURS = {"SPARC": ["SPARC", "SPARC32PLUS"], "ARM": ["ARM"], "MIPS": ["MIPS"], "PARISC": ["PARISC"], "PPC": ["PPC"]}
+PLAIN_CLI = os.path.join(BUILD, "bin", "dwgrep-plain")
+
+
+def work_family_archives(task):
+    """An archive whose members are objects of one constant family: the same machine, or flavours of it that differ in
+    e_machine (a 32-bit SPARC archive of v8 and v8plus objects).  Types and bindings are named in that family for
+    every member, and the machine's own words match exactly the entries that carry the code.  Run on the command
+    line tool built the way the project's instructions build it (assertions compiled out): with assertions on the
+    library stops on an archive whose members differ in e_machine, see DESIGN section 4."""
+    import itertools
+    seed, start, count = task
+    ev = Evidence()
+    for i in range(start, start + count):
+        rnd = random.Random((seed << 32) ^ (i * 2654435761 & 0xffffffff) ^ 0xFA18)
+        fam = rnd.choice(["SPARC", "SPARC", "SPARC", "ARM", "MIPS", "PARISC"])
+        flav = [rnd.choice(FLAVOURS[fam]) for _ in range(rnd.randint(2, 3))]
+        if fam == "SPARC" and len(set(flav)) == 1 and rnd.random() < 0.8:
+            flav[rnd.randrange(len(flav))] = "SPARC32PLUS" if flav[0] == "SPARC" else "SPARC"
+        tables = []
+        for _ in flav:
+            t = (gen_symbols(rnd) or [Sym()])[:rnd.choice([3, 8, 20])]
+            t = [Sym(b"s%d" % k, x.value, x.size, x.typ, x.bind, x.vis, x.shndx, x.other_hi) for k, x in enumerate(t)]
+            if len(t) > 1 and rnd.random() < 0.7:
+                x = t[-1]
+                t[-1] = Sym(x.name, x.value, x.size, 13, x.bind, x.vis, x.shndx, x.other_hi)
+            tables.append(t)
+        members = [("m%d.o" % k, write_elf([(b".text", b"\0" * 64)], t, machine=EM[m], bits=SHAPES[m][0], big=SHAPES[m][1])) for k, (m, t) in enumerate(zip(flav, tables))]
+        data = ar_archive(members)
+        stt, stb = family_names("STT", flav[0]), family_names("STB", flav[0])
+        special = sorted(n for c in (13, 14, 15) for n in stt.get(c, ()) if ("_" + fam + "_") in n)
+        with TempElf(data) as path:
+            try:
+                pr = subprocess.run([PLAIN_CLI, path, "-e", 'symbol (|S| S label "%s" " " S binding "%s" add add)'], stdout=subprocess.PIPE, stderr=subprocess.PIPE, timeout=120)
+                counts = {}
+                for w in special:
+                    pc = subprocess.run([PLAIN_CLI, "-c", path, "-e", "symbol (label == %s)" % w], stdout=subprocess.PIPE, stderr=subprocess.PIPE, timeout=120)
+                    counts[w] = (pc.returncode, pc.stdout.strip())
+            except subprocess.TimeoutExpired:
+                ev.inconc("watchdog")
+                continue
+        ev.case(key=data, nontrivial=len(set(flav)) > 1 or any(x.typ & 15 >= 13 for t in tables for x in t))
+        ev.label("family-archive:" + fam)
+        if len(set(flav)) > 1:
+            ev.label("family-archive:members-differ-in-e_machine")
+        why = None
+        lines = pr.stdout.decode("latin-1").split("\n")[:-1]
+        if pr.returncode != 0:
+            why = "exit status %d, stderr %r" % (pr.returncode, pr.stderr[-200:])
+        else:
+            def fits(line, x):
+                m = re.match(r"^(STT_\S+(?: \(0x[0-9a-f]+\))?) (STB_.*)$", line)
+                if not m:
+                    return False
+                a, b = m.group(1), m.group(2)
+                ta, tb = x.typ & 15, x.bind & 15
+                oka = a in stt[ta] if ta in stt else a == ("STT_LOOS+%d" % (ta - 10) if 10 <= ta <= 12 else "STT_LOPROC+%d" % (ta - 13) if ta >= 13 else None) or (ta < 10 and "???" in a)
+                okb = b in stb[tb] if tb in stb else b == ("STB_LOOS+%d" % (tb - 10) if 10 <= tb <= 12 else "STB_LOPROC+%d" % (tb - 13) if tb >= 13 else None) or (tb < 10 and "???" in b)
+                return oka and okb
+            ok = False
+            for perm in itertools.permutations(range(len(tables))):
+                flat = [x for k in perm for x in tables[k]]
+                if len(flat) == len(lines) and all(fits(l, x) for l, x in zip(lines, flat)):
+                    ok = True
+                    break
+            if not ok:
+                bad = next((l for l in lines if not any(fits(l, x) for t in tables for x in t)), None)
+                why = "an archive of %s objects (%s): %d lines for %d entries%s" % (fam, "+".join(flav), len(lines), sum(len(t) for t in tables),
+                                                                                  ("; %r is no entry's type and binding in the %s family" % (bad, fam)) if bad else "; the lines are not the members' tables one after the other")
+            else:
+                for w in special:
+                    code = next(c for c in stt if w in stt[c])
+                    want = sum(1 for t in tables for x in t if x.typ & 15 == code)
+                    rc, out = counts[w]
+                    if out != b"%d" % want:
+                        why = "an archive of %s objects (%s): `symbol (label == %s)` counts %r, %d entries have type %d" % (fam, "+".join(flav), w, out, want, code)
+                        break
+        if why:
+            ev.violations.append({"property": PID, "elf_hex": data.hex(), "recipe": {"seed": seed, "index": i, "kind": "family-archive"}, "reason": why, "signature": "C18:family-ar:" + fam + ":" + why[-50:]})
+        elif rnd.random() < 0.05:
+            ev.sample({"family_archive": flav, "entries": [len(t) for t in tables], "first_lines": lines[:3]})
+    return ev
+
+
 def work_cross(task):
     """Machine-specific codes of two machines never compare equal; common codes do."""
     ev = Evidence()
@@ -482,6 +566,8 @@ def main(tier, seed):
     ev.merge(work_cross(None))
     na = 120 if tier == "quick" else 3000
     ev.merge(run_pool(work_archives, [(seed, s_, min(10, na - s_)) for s_ in range(0, na, 10)]))
+    nf = 96 if tier == "quick" else 2400
+    ev.merge(run_pool(work_family_archives, [(seed, s_, min(8, nf - s_)) for s_ in range(0, nf, 8)]))
     samples = sorted(p for p in glob.glob("/repo/tests/*") if os.path.isfile(p) and open(p, "rb").read(4) == b"\x7fELF")
     samples += [p for p in ("/verif/build/bin/h_int", "/usr/bin/readelf", "/usr/lib/x86_64-linux-gnu/libelf.so.1") if os.path.exists(p)]
     ev.merge(run_pool(work_samples, [samples[i::8] for i in range(8)]))
@@ -493,6 +579,7 @@ def main(tier, seed):
                           "both classes and endiannesses": all(ev.labels.get("class:" + c, 0) > 0 for c in ("32LE", "32BE", "64LE", "64BE")),
                           "cross-machine pairs": ev.labels.get("cross-machine-pair", 0) >= 10,
                           "archives": ev.labels.get("archive", 0) >= 50,
+                          "archives of flavours of one family": ev.labels.get("family-archive:members-differ-in-e_machine", 0) >= 20,
                           "samples": ev.labels.get("sample", 0) >= 8})
 
 
@@ -500,4 +587,10 @@ def replay(path):
     import json
     rec = json.load(open(path))
     print(rec.get("reason"))
+    rc = rec.get("recipe") or {}
+    if rc.get("kind") in ("family-archive", "archive"):
+        ev = (work_family_archives if rc["kind"] == "family-archive" else work_archives)((rc["seed"], rc["index"], 1))
+        for v in ev.violations:
+            print("now:", v["reason"])
+        return 1 if ev.violations else 0
     return 0
